@@ -125,9 +125,11 @@ pub fn pool(_mode: &TransportMode) -> Vec<DescSpec> {
         /* 13 */ DescSpec::new(vec![]),
         /* 14 */ { let mut a = a0.clone(); a.mid = Some("65535".into()); let mut b = audio(Some("3"), vec![pcmu()]); b.dir = "recvonly";
                    let mut d = DescSpec::new(vec![a, b]); d.bundle = false; d },
+        /* 15 */ { let mut a = a0.clone(); a.setup = None; let mut d = DescSpec::new(vec![a]); d.session_setup = Some("passive"); d.session_version = 4; d }, // a=setup at session level only
+        /* 16 */ { let mut a = a0.clone(); a.setup = Some("passive"); let mut d = DescSpec::new(vec![a]); d.session_version = 5; d },  // the offerer takes the other DTLS role
     ]
 }
-pub const NPOOL: usize = 15;
+pub const NPOOL: usize = 17;
 
 fn parse_desc(ty: SdpType, text: &str) -> SessionDescription {
     SessionDescription::parse(ty, text).expect("harness-generated SDP must parse")
@@ -261,7 +263,8 @@ fn desc_token(t: &mut Tables, d: &SessionDescription) -> String {
     let id = t.desc_id(d);
     if t.sent.contains(&id) { return format!("@{id}"); }
     t.sent.push(id);
-    format!("{}|{}|{}|{}|{}|{}", ty_ch(d.sdp_type), id, t.eq_id(d), fp, if groups.is_empty() { "_".into() } else { groups.join("+") },
+    let ssu = d.session.attributes.iter().find(|a| a.key == "setup" && a.value.is_some()).and_then(|a| a.value.as_ref()).map(|v| hx(v)).unwrap_or("~".into());
+    format!("{}|{}|{}|{}|{}|{}|{}", ty_ch(d.sdp_type), id, t.eq_id(d), fp, if groups.is_empty() { "_".into() } else { groups.join("+") }, ssu,
         if secs.is_empty() { "_".into() } else { secs.join(";") })
 }
 
@@ -537,6 +540,8 @@ fn alphabet_b() -> Vec<Call> {
         Call::SetRemote(Src::Pool(9), Offer),
         Call::SetLocal(Src::Modified(1), Offer),
         Call::SetRemote(Src::Pool(14), Offer),
+        Call::SetRemote(Src::Pool(15), Offer),
+        Call::SetRemote(Src::Pool(16), Offer),
         Call::Close,
     ]
 }
@@ -701,7 +706,8 @@ pub fn run(args: &Args) {
     run.count_n("bind_fails_exhaustiveB_len2_r", alb.len().pow(2) as u64);
     for sc in ["r!/a0,v0/srP1o;ca", "r!/a0/slP0o;srA0a", "r!/a0/slP0o;srA0p;srA0a", "r!//srP12o;ca", "r!/a0/srP13o", "r!/a0/srP3o;ca",
                "r!/a0,a0/srP9o;ca", "r!/v0/srP4o;ca", "r!/a0/slP0o;srA0a;srP11o", "s!/a0/co", "s!/a0/srP0o;ca", "s!/a0/slP0o;srA0a",
-               "s!/a0t,v2/co", "s!/a0t,v2/srP1o", "s!/a0/slP0o;srA0p", "w!/a0/co;slLo;srA0a", "w!/a0/srP0o;ca;slLa"] {
+               "s!/a0t,v2/co", "s!/a0t,v2/srP1o", "s!/a0/slP0o;srA0p", "w!/a0/co;slLo;srA0a", "w!/a0/srP0o;ca;slLa",
+               "w/a0/srP0o;ca;slLa;ds;srP16o;ca", "w/a0/srP0o;ca;slLa;srP16o;ca", "w/a0/srP15o;ca;slLa;srP0o", "w/a0/co;slLo;srA0p;srA0a"] {
         emit(&mut run, &mut rt, &parse_script(sc));
         run.count("bind_fails_directed");
     }
